@@ -97,7 +97,9 @@ fn operand_load(
         } => {
             let reg = get_register(*reg)?;
             let reg_value = reg.get();
-            assert_eq!(reg.bits(), 128);
+            if reg.bits() != 128 {
+                return Err(unsupported());
+            }
 
             let (shift, width) = arr_spec_offset_width(arrspec);
 
@@ -130,28 +132,28 @@ fn operand_load(
         | bad64::Operand::Cond(_)
         | bad64::Operand::Name(_)
         | bad64::Operand::StrImm { .. } => Err(unsupported()),
+        // a memory operand where a register or an immediate is expected
         bad64::Operand::MemReg(_)
         | bad64::Operand::MemOffset { .. }
         | bad64::Operand::MemPreIdx { .. }
         | bad64::Operand::MemPostIdxReg(_)
         | bad64::Operand::MemPostIdxImm { .. }
-        | bad64::Operand::MemExt { .. } => unreachable!("Memory operand is unexpected here"),
+        | bad64::Operand::MemExt { .. } => Err(unsupported()),
     }
 }
 
-/// Get an immediate operand of type `u64`. Will panic if it's not an immediate
-/// operand. A signed immediate is bit-cast to an unsigned one.
+/// Get an immediate operand of type `u64`. Fails with `UnsupportedError` if
+/// it's not an immediate operand. A signed immediate is bit-cast to an
+/// unsigned one.
 ///
 /// **Shifted immediates aren't supported.**
-fn operand_imm_u64(opr: &bad64::Operand) -> u64 {
+fn operand_imm_u64(opr: &bad64::Operand) -> Result<u64> {
     match opr {
         bad64::Operand::Imm32 { imm, shift: None } | bad64::Operand::Imm64 { imm, shift: None } => {
-            imm_to_u64(imm)
+            Ok(imm_to_u64(imm))
         }
         bad64::Operand::Imm32 { shift: Some(_), .. }
-        | bad64::Operand::Imm64 { shift: Some(_), .. } => {
-            unreachable!("unshifted immediate expected")
-        }
+        | bad64::Operand::Imm64 { shift: Some(_), .. } => Err(unsupported()),
         bad64::Operand::Reg { .. }
         | bad64::Operand::SmeTile { .. }
         | bad64::Operand::AccumArray { .. }
@@ -171,7 +173,7 @@ fn operand_imm_u64(opr: &bad64::Operand) -> u64 {
         | bad64::Operand::ImplSpec { .. }
         | bad64::Operand::Cond(_)
         | bad64::Operand::Name(_)
-        | bad64::Operand::StrImm { .. } => unreachable!("immediate expected"),
+        | bad64::Operand::StrImm { .. } => Err(unsupported()),
     }
 }
 
@@ -832,8 +834,10 @@ fn cbz_cbnz_tbz_tbnz(
 
         let value = if let Some(opr_bit) = opr_bit {
             // specific bit
-            let bit = operand_imm_u64(&instruction.operands()[opr_bit]);
-            assert!(bit < bits as u64);
+            let bit = operand_imm_u64(&instruction.operands()[opr_bit])?;
+            if bit >= bits as u64 {
+                return Err(unsupported());
+            }
             il::Expression::and(value, il::expr_const(1 << bit, bits)).unwrap()
         } else {
             // any bit set
